@@ -96,6 +96,9 @@ def run_case(ck, desc):
     ck.count("contract_evaluations.simulate", 2)
     pp1, pp2 = ev1["pp"], ev2["pp"]
     m_i = 1.0 if desc["cls"] == "ideal" else float(fluid.m_i)
+    # magnitude of the field, used as the scale of rounding-level bounds (the scaled pseudopressure can be
+    # NEGATIVE at p_i when the table's datum lies above it - seen by the fresh-restore check, seed 1)
+    m_scale = max(abs(m_i), float(np.max(np.abs(pp1))), 1e-300)
     nt = len(t)
     strictly = bool(np.all(np.diff(t) > 0))
     probes = np.concatenate([t, [t[0] - 1.0, t[0] - 1e-9, t[-1] + 1e-9, t[-1] + 5.0], 0.5 * (t[1:] + t[:-1])])
@@ -116,13 +119,13 @@ def run_case(ck, desc):
         if dtmin > 0:
             bound = 10 * nt * np.finfo(float).eps * (abs(c) + float(t[-1])) / dtmin + 1e-12
             if bound <= 1e-6:
-                diff = float(np.max(np.abs(pp1 - pp2))) / m_i
+                diff = float(np.max(np.abs(pp1 - pp2))) / m_scale
                 if not ck.margin("shift-invariant (rounding level)", diff, bound):
                     ck.violation("shift-invariant (rounding level)", {"rel_field_diff": diff, "bound": bound, "shift": c}, desc)
                 # the flux recovery is a time integral of 0.5 nx (-m2 + 4 m1 - 3 m0): its rounding
                 # floor is eps m_i nx span even when nothing is produced (p_f = p_i)
                 span = float(t[-1] - t[0])
-                rtol = 50 * bound * float(np.max(np.abs(rf1))) + 50 * bound * m_i * pp1.shape[1] * span + 1e-300
+                rtol = 50 * bound * float(np.max(np.abs(rf1))) + 50 * bound * m_scale * pp1.shape[1] * span + 1e-300
                 dr = float(np.max(np.abs(rf1 - rf2)))
                 if not ck.margin("recovery shift-invariant (rounding level)", dr, rtol):
                     ck.violation("recovery shift-invariant (rounding level)", {"abs_diff": dr, "bound": rtol, "shift": c}, desc)
